@@ -110,21 +110,34 @@ func gopfmt(path string, class, smart, mvgo bool) (err error) {
 
 func writeFileWithBackup(path string, target []byte) (err error) {
 	dir, file := filepath.Split(path)
+	if dir == "" {
+		dir = "." // not os.TempDir(): the temporary file must be on the file system of path
+	}
+	fi, err := os.Stat(path)
+	if err != nil {
+		return
+	}
 	f, err := os.CreateTemp(dir, file)
 	if err != nil {
 		return
 	}
 	tmpfile := f.Name()
 	_, err = f.Write(target)
-	f.Close()
+	if err == nil {
+		err = f.Chmod(fi.Mode().Perm()) // keep the permission bits of the file being replaced
+	}
+	if e := f.Close(); err == nil {
+		err = e
+	}
 	if err != nil {
+		os.Remove(tmpfile)
 		return
 	}
-	err = os.Remove(path)
-	if err != nil {
-		return
+	// rename replaces path atomically; removing path first would leave a window without the file
+	if err = os.Rename(tmpfile, path); err != nil {
+		os.Remove(tmpfile)
 	}
-	return os.Rename(tmpfile, path)
+	return
 }
 
 type walker struct {
